@@ -20,11 +20,9 @@ pub fn cases(t: Tier) -> u64 {
 
 /// Does the SLG forest already hold a table for `goal` with an answer that carries delayed subgoals? (H4)
 ///
-/// F11's root-cause condition: some table of the forest is *complete* (no strands left) yet holds an answer that is
-/// still conditional on delayed subgoals of a cycle that has long been resolved. Any later query that pulls answers
-/// from such a table from outside that cycle loses them. `goal` is unused but kept for callers' clarity.
-pub fn slg_delayed_table(s: &mut SLGSolver<I>, _goal: &UGoal) -> bool {
-    s.verif_tables().iter().any(|t| t.answers_with_delayed_subgoals > 0 && t.strands == 0)
+/// F11's root-cause condition in its precise form (W or M), see `common::slg_stale_table`.
+pub fn slg_delayed_table(s: &mut SLGSolver<I>, goal: &UGoal) -> bool {
+    crate::common::slg_stale_table(s, goal)
 }
 
 pub fn run(ctx: &Ctx, out: &mut CaseOut) {
@@ -117,6 +115,41 @@ pub fn run(ctx: &Ctx, out: &mut CaseOut) {
                     }
                     let stale = rec.stale_delayed_table;
                     judge_one(out, gi, &rec, "fresh", stale);
+                }
+            }
+            // (a') conjunctions of two goals on a fresh solver: the root table is then not itself coinductive and consumes
+            // the answers of cycle members
+            for _ in 0..8.min(goals.len()) {
+                let (i, j) = (r.below(goals.len()), r.below(goals.len()));
+                if i == j || blown.contains(&i) || blown.contains(&j) {
+                    continue;
+                }
+                let gtext = format!("{}, {}", pred_text(&goals[i]), pred_text(&goals[j]));
+                let p = match lower_and_peel(&l, &gtext, &[]) {
+                    Ok(p) => p,
+                    Err(_) => continue,
+                };
+                let rec = solve_translated(&l, choice, &p, 300_000);
+                let ans = match &rec.ans {
+                    Ok(a) => a,
+                    Err(_) => {
+                        note_non_answer(out, &rec);
+                        continue;
+                    }
+                };
+                out.evals += 1;
+                let expect = verdicts[i].and(verdicts[j]);
+                let bad = match (ans, expect) {
+                    (MAnswer::Unique(..), Tri::False) => Some("Unique although one of the conjuncts does not hold under the coinductive semantics"),
+                    (MAnswer::None, Tri::True) => Some("No possible solution although both conjuncts hold under the coinductive semantics"),
+                    _ => None,
+                };
+                out.count(&format!("answer:{}:conjunction:{}", solver_name(&choice), ans.kind()));
+                if let Some(why) = bad {
+                    let sig = if rec.stale_delayed_table && matches!(ans, MAnswer::None) { Some("slg:stale-delayed-answer-table") } else { None };
+                    out.violation(sig, format!("{} (fresh) answered `{}` for `{}`: {}", solver_name(&choice), rec.shown, gtext, why), detail(&text, &gtext, &choice).set("answer", rec.shown.as_str()).set("model_verdict", format!("{:?}", expect)).set("history", "fresh-conjunction"));
+                } else if expect != Tri::Unknown && matches!(ans, MAnswer::Unique(..) | MAnswer::None) {
+                    out.nt(&format!("{}|{}|{}|conj", text, gtext, solver_name(&choice)));
                 }
             }
             // (b) sequences on one solver instance: rotations and random interleavings (chalk#248 shapes)
